@@ -474,6 +474,7 @@ Definition tr_p_isdir (p : tr_npayload) : bool := match p with TrJson s _ => s_i
 Definition tr_p_archive (p : tr_npayload) : bool := match p with TrJson s _ => s_archive s | TrPlain _ => false end.
 Definition tr_p_tail (p : tr_npayload) : list name := match p with TrJson s _ => tl (s_rel s) | TrPlain _ => [] end.
 Definition tr_p_aid (p : tr_npayload) : Z := match p with TrJson s _ => s_id s | TrPlain _ => 0%Z end.
+Definition tr_p_size (p : tr_npayload) : N := match p with TrJson _ size => size | TrPlain _ => 0 end.   (* srcFile.Size *)
 (* fullPath of createDirOrFile / createFile *)
 Definition tr_leaf (dest : path) (ln : name) (p : tr_npayload) : path := join dest (ln :: tr_p_tail p).
 (* file.Stat().Size() right after the file was opened *)
@@ -487,7 +488,8 @@ Inductive tr_rphase :=
 | RpNum
 | RpName
 | RpHSize (p : tr_npayload) (leaf : path) (old : list byte)                    (* resume, protocol 3: SIZE (not echoed) *)
-| RpHash (p : tr_npayload) (leaf : path) (old : list byte) (r : Resume.rstate) (* recvPrefixHash's loop *)
+| RpHash (p : tr_npayload) (leaf : path) (old : list byte) (ssize : N) (r : Resume.rstate)
+                                                  (* recvPrefixHash's loop; [ssize] = the source size as announced *)
 | RpSize (p : tr_npayload)
 | RpComp (p : tr_npayload) (size : N)
 | RpData (p : tr_npayload) (size : N) (compress : bool) (acc : list (list byte)) (steps : list N)
@@ -503,7 +505,9 @@ Record tr_rstate := mkRSx {
   rs_st : Names.state;           (* file system, effect log, createdFiles, fileNameMap *)
   rs_names : list name;          (* localNames *)
   rs_sched : list tr_sched;      (* head = the schedule of the current entry *)
-  rs_open : option (path * Resume.file)   (* resume: the existing file, cut at matchStep, offset there *)
+  rs_open : option (path * Resume.file * Z)
+                                 (* resume: the existing file, cut at matchStep, offset there; resumeRestSize =
+                                    what the rest must measure (announced source size - matchStep) *)
 }.
 Notation mkRS ph left st names sch := (mkRSx ph left st names sch None).
 
@@ -549,26 +553,36 @@ Definition tr_r_name (c : tr_cfg) (dest : path) (st : tr_rstate) (p : tr_npayloa
       let leaf := tr_leaf dest ln p in
       let old := tr_old_content st1 leaf in
       (tr_r_phase stn (if tc_proto c <? Consts.tr_proto_resume_nosize then RpHSize p leaf old
-                       else RpHash p leaf old Resume.r_init), [reply])
+                       else RpHash p leaf old (tr_p_size p) Resume.r_init), [reply])
     else (tr_r_phase stn (RpSize p), [reply])
   end.
 
 (* recvPrefixHash on one HASH record: one step of Resume.recv_hashes, the answers it appends *)
-Definition tr_r_hash (st : tr_rstate) (p : tr_npayload) (leaf : path) (old : list byte) (r : Resume.rstate)
+Definition tr_r_hash (st : tr_rstate) (p : tr_npayload) (leaf : path) (old : list byte) (ssize : N) (r : Resume.rstate)
     (step : Z) (h : Resume.digest) : tr_rstate * list tr_msg :=
   match Resume.recv_hashes tr_hash_B hx old [Resume.Hash step h] r with
   | Resume.RBlocked r' =>
-    (tr_r_phase st (RpHash p leaf old r'), map tr_hack (skipn (length (Resume.r_acks r)) (Resume.r_acks r')))
+    (tr_r_phase st (RpHash p leaf old ssize r'), map tr_hack (skipn (length (Resume.r_acks r)) (Resume.r_acks r')))
   | _ => tr_r_fail st
   end.
-(* Over: file.Seek(matchStep), file.Truncate(matchStep) *)
-Definition tr_r_over (st : tr_rstate) (p : tr_npayload) (leaf : path) (old : list byte) (r : Resume.rstate)
+(* Over: file.Seek(matchStep), file.Truncate(matchStep); resumeRestSize = size - matchStep *)
+Definition tr_r_over (st : tr_rstate) (p : tr_npayload) (leaf : path) (old : list byte) (ssize : N) (r : Resume.rstate)
   : tr_rstate * list tr_msg :=
   let mr := Z.to_nat (Resume.r_mstep r) in
   let f := Resume.f_truncate (Resume.f_seek (Resume.mkFile old (Resume.r_off r)) mr) mr in
-  (mkRSx (RpSize p) (rs_left st) (rs_st st) (rs_names st) (rs_sched st) (Some (leaf, f)), []).
+  (mkRSx (RpSize p) (rs_left st) (rs_st st) (rs_names st) (rs_sched st)
+         (Some (leaf, f, (Z.of_N ssize - Resume.r_mstep r)%Z)), []).
+
+(* recvFiles after recvFileSize (which has echoed the size): a resumed file whose announced rest is not the
+   source size minus the receiver's own offset is an error ("Resume offset mismatch") *)
+Definition tr_rest_mismatch (st : tr_rstate) (n : N) : bool :=
+  match rs_open st with
+  | Some (_, _, rest) => Consts.tr_resume_rest_check && ((0 <=? rest) && negb (Z.of_N n =? rest))%Z
+  | None => false
+  end.
 
 Definition tr_r_size (c : tr_cfg) (st : tr_rstate) (p : tr_npayload) (n : N) : tr_rstate * list tr_msg :=
+  if tr_rest_mismatch st n then (tr_r_phase st RpFail, [TrSuccInt n; TrFail]) else
   if tr_pipeline c then
     match tr_is_compress_fixed c n with
     | (true, cp) => (tr_r_phase st (RpData p n cp [] (sc_steps (tr_cur_sched st))), [TrSuccInt n])
@@ -584,7 +598,7 @@ Definition tr_rdflt : nat := 1.   (* the decoder's read size: any positive value
    cut; an archive by creating its directory again and planting the writer's tree below it *)
 Definition tr_complete (c : tr_cfg) (dest : path) (st : tr_rstate) (p : tr_npayload) (w : list byte) : option state :=
   match rs_open st with
-  | Some (leaf, f) =>
+  | Some (leaf, f, _) =>
     match tr_create c dest p [] (rs_st st) with
     | (NOk _, st2) => Some (tr_set_file st2 leaf (Resume.f_data (Resume.f_write f w)))
     | (NErr, _) => None
@@ -666,11 +680,11 @@ Definition tr_receiver (c : tr_cfg) (dest : path) (st : tr_rstate) (m : tr_msg) 
         end
       | RpName => match m with TrName p => tr_r_name c dest st p | _ => tr_r_fail st end
       | RpHSize p leaf old =>
-        match m with TrSize _ => (tr_r_phase st (RpHash p leaf old Resume.r_init), []) | _ => tr_r_fail st end
-      | RpHash p leaf old r =>
+        match m with TrSize n => (tr_r_phase st (RpHash p leaf old n Resume.r_init), []) | _ => tr_r_fail st end
+      | RpHash p leaf old ssize r =>
         match m with
-        | TrHash step h => tr_r_hash st p leaf old r step h
-        | TrHashOver => tr_r_over st p leaf old r
+        | TrHash step h => tr_r_hash st p leaf old ssize r step h
+        | TrHashOver => tr_r_over st p leaf old ssize r
         | _ => tr_r_fail st
         end
       | RpSize p => match m with TrSize n => tr_r_size c st p n | _ => tr_r_fail st end
